@@ -89,6 +89,45 @@ chk("C18", "translation_validation",
     "Exact reals instead of binary64; log uninterpreted with three axioms; NOT claimed: z >= true normal quantile (transcendental).",
     "symbolic execution (pysym, exact-real mode) + z3 NRA/nlsat portfolio", "DESIGN.md section 6 C18")
 
+chk("C01", "translation_validation",
+    "The generated function, deterministic_choice/proba and bisect are executed symbolically with effect tracking and "
+    "world-indexed models of every process-local entropy source; per path the effect set must be empty and no entropy "
+    "value may reach a condition or the outcome (two-world self-composition query otherwise). The real code generator is "
+    "executed symbolically on live ASTs with set iteration order chosen by the world: one text over all worlds.",
+    "Lexer/LALR tables run concretely (their hash-seed independence only exercised by the multi-process replay); "
+    "programs of the splitter family.",
+    "symbolic execution (pysym) with effect/entropy tracking + z3 self-composition", "DESIGN.md section 6 C01")
+
+chk("C06", "model_checking",
+    "Unbounded one-step lexer lemmas over the live rule patterns as single regular-membership queries (LX-REJECT, LX-ONLY), "
+    "pysym on error()/parse_source for the handlers, bounded CFG inclusion L(G_impl) in L(G_ref) by CYK circuits (SAT), "
+    "PARSE-ABSORB by symbolic execution of the LR driver's error branch, evaluator step from C11.",
+    "Token sequences <= K (18 quick / 24 thorough); sly table construction/driver trusted between lexer and grammar "
+    "(validated on solver-generated near-misses); reference lexer/grammar are our reading of the documentation.",
+    "z3 regex/sequence theory (one-step lemmas) + SAT CYK circuits + pysym", "DESIGN.md section 6 C06")
+
+chk("C07", "translation_validation",
+    "LX-ACCEPT for every token class over all lexemes/contexts (z3 regex), L(G_ref) in L(G_impl) up to K tokens (CYK/SAT), "
+    "solver-generated sentences through the real pipeline, and per program of an extended family the symbolic execution of "
+    "the generated function ends only in a group or the unroutable error for all type-compatible inputs.",
+    "Identifier pool for code generation (lexical part covers all identifiers); K tokens; known findings: Python reserved "
+    "words and helper names as identifiers.",
+    "z3 regex lemmas + SAT CYK circuits + symbolic execution (pysym) per program", "DESIGN.md section 6 C07")
+
+chk("C08", "model_checking",
+    "Unbounded one-step lemmas for whitespace, line comments and the block-comment state (opener, chunk, first-close), "
+    "LX-ACCEPT in every right context and LX-ONLY for ignore rules, each one z3 regular-membership query over the live "
+    "patterns; trivia variants of family programs validated through the real parser.",
+    "Induction over lexer steps argued in DESIGN.md (not machine-checked); marker code point U+E000 excluded from texts.",
+    "z3 regex/sequence theory, marker encoding of one lexer step", "DESIGN.md section 6 C08")
+
+chk("C14", "translation_validation",
+    "Per program the three generated texts (exec'd by recompile; generate_code nested / exposed, black-formatted) are run "
+    "symbolically as CPython would (own imports, module or evaluator globals) and z3 decides for all field values that "
+    "all pairs of paths agree on (key, population, weights) or the exception class.",
+    "Program family (documented, single predicates, skeletons, deep, splitter family); black executed natively.",
+    "relational symbolic execution (pysym) + z3", "DESIGN.md section 6 C14")
+
 NOT_APPLICABLE = {
     "C04": "statistical chi-square claim about MD5 output on concrete populations: not a forall-claim a solver can "
            "decide, and MD5's 64 rounds are a non-target; structural preconditions are decided under C09/C12",
